@@ -90,6 +90,7 @@ class Pattern(Interp):
 
     def __init__(self, prog):
         super().__init__(prog)
+        self.EXEMPT_FUNCS = dict(self.EXEMPT_FUNCS) if chain_test_is_exact(prog) else {}
         self.violations = {}     # (qname, construct) -> dict
         self.declass = set()     # declassification sites seen
         self.unknown = []        # unmodelled calls met with raw data
@@ -577,6 +578,31 @@ class Pattern(Interp):
         if max(r.lvl, data.lvl) >= RAW:
             return self.arith(n, ctx, r, data)
         return self.jn(r, data)
+
+
+def chain_test_is_exact(prog):
+    """The frozen exception of DESIGN.md 3.2 covers `is_chain_graph` only while it is the exact value test
+    `(A == chain_graph(len(A))).all()` - true only for *the* 0/1 chain, so a weighted or different graph simply
+    takes the general path.  Any other body (sums, partial comparisons) loses the exemption."""
+    from .sym import Sym, run_function, T
+    q = "sempler.utils.is_chain_graph"
+    if q not in prog.funcs:
+        return False
+    try:
+        S = Sym(prog)
+        summ, _ = run_function(S, prog.funcs[q])
+        t = T(summ.ret)
+    except Inconclusive:
+        return False
+    A = ("param", "A")
+    lens = [("ext", "len", (A,), ()), ("sub", ("attr", A, "shape"), ("const", 0))]
+    chains = [("call", "sempler.utils.chain_graph", (l,), (("p", l),)) for l in lens]
+    forms = []
+    for c in chains:
+        forms += [("method", ("cmp", "==", A, c), "all", (), ()), ("method", ("cmp", "==", c, A), "all", (), ()),
+                  ("ext", "numpy.array_equal", (A, c), ()), ("ext", "numpy.array_equal", (c, A), ()),
+                  ("ext", "numpy.all", (("cmp", "==", A, c),), ()), ("ext", "bool", (("method", ("cmp", "==", A, c), "all", (), ()),), ())]
+    return t in forms
 
 
 # ====================================================================== entry driver
